@@ -66,7 +66,7 @@ func c03Stream(r *Run) {
 		frames[i] = GenFrame(T, GenOpts{Version: v, Requests: true, Responses: true, MaxBytes: maxBytes, BigChance: 0.15,
 			Compressible: T.Bool("compressible", 0.5), HeaderFlags: true, AllowTracingOnRequests: true}, int16(T.Draw("stream", 120)))
 		if comp != primitive.CompressionNone && T.Bool("compressflag", 0.6) {
-			frames[i].SetCompress(true)
+			markCompressed(T, frames[i])
 		}
 	}
 	a, b := r.Net.Pair("L", r.Net.NewClientAddr(), mustAddr("10.0.0.2:9042"), opts)
